@@ -47,6 +47,11 @@ CLAIMS = {
         "Decides structural necessary conditions only: no user code under a registry lock / thread-local registry borrow (first access with nested linked variables terminates), per-thread cleanup of Send references keyed by origin and decided under the lock, confinement witnesses, create-outside/insert-under-lock with occupied re-check, first registration wins. Two defects found by R1 on the pinned tree were genuine, reproduced and repaired by two fix: commits; R2/R3 on RefSync are genuine, reproduced and recorded as known findings (repair is a design change). Exactly-one-family under all racing first accesses is not decided.",
         "Trusted: rustc nightly MIR and trait solver, factgen extraction, user-code classification with the benign tables in vf/props/c12.py.",
         "DESIGN.md section 3, C12"),
+    "C14": (
+        "MIR rules: dominance/must-pass-through for listen -> re-check -> wait and push -> notify, guard liveness (no task run under a queue lock; flag re-read under the handle-list lock; joins outside it), catch_unwind containment of the user closure with send-on-every-path, backward slices for the single processor id, control-dependence of enqueue on a shutdown check",
+        "Decides structural necessary conditions only: no-lost-wake-up protocol shape on worker and spawner side, run-once / panic-captured / result-always-sent, one processor id and pin-before-loop, shutdown ordering, no task under a queue lock. The enqueue/shutdown discipline (R5) is violated on the pinned tree: genuine, reproduced (handles hang) and recorded as three known findings; the repair is cross-cutting. Liveness over all schedules is not decided.",
+        "Trusted: rustc nightly MIR, factgen extraction, expansion shape of event_listener's listener! macro (StackSlot::listen / Listener::wait), user-code classification.",
+        "DESIGN.md section 3, C14"),
     "C17": (
         "MIR rules: detection of lifetime-erasing transmutes (source = target after region erasure), exit analysis over both return and unwind edges (must-pass-through of a drain-guard Drop on every unwind path from a panicking call after the first cross-thread hand-off; returns only behind the collection loop's exhaustion), loop/dominance shape of the per-thread closure, backward slices for barrier size and group indexes",
         "Decides structural necessary conditions only: the scope obligation created by the lifetime-erasing transmute (no return or unwind before all result channels are drained), the call-count shape of the per-thread closure, barrier/grouping provenance. The violation found on the pinned tree (panicking expect inside the collection/dispatch loops) was a genuine, reproduced use-after-return and is repaired by a fix: commit. Numeric iteration counts for all inputs are not decided.",
